@@ -360,4 +360,26 @@ theorem failure_paths_skeleton :
     Helm.Spec.precedes "cfg.execHook:HookPostUpgrade" "set originalRelease StatusSuperseded" Helm.Gen.skelUpgradeReleasing = true := by
   decide
 
+/-! ### the glue between the actions (regenerated at every run) -/
+
+/-- `helm upgrade --install` hands the flags the failure clauses depend on to the install it falls back to,
+each exactly once and from the upgrade flag of the same name; a failed atomic install gives its uninstall, and a
+failed atomic upgrade gives its rollback, the operation's own wait strategy and time-out (an action run with no
+wait strategy stops at the kube client's "unknown wait strategy" before it has repaired anything), and the
+uninstall purges the history. -/
+theorem atomic_glue_forwards_flags :
+    Helm.Spec.forwardsAll Helm.Gen.upgradeInstallForwards
+      [("Atomic", "client.Atomic"), ("Timeout", "client.Timeout"), ("WaitStrategy", "client.WaitStrategy"),
+       ("WaitForJobs", "client.WaitForJobs"), ("DisableHooks", "client.DisableHooks"), ("Force", "client.Force"),
+       ("Namespace", "client.Namespace")] = true ∧
+    Helm.Spec.forwardsAll Helm.Gen.atomicUninstallFields
+      [("WaitStrategy", "i.WaitStrategy"), ("Timeout", "i.Timeout"), ("KeepHistory", "false"),
+       ("DisableHooks", "i.DisableHooks")] = true ∧
+    Helm.Gen.atomicRollbackFields.filter (fun p => p.1 == "WaitStrategy")
+      = [("WaitStrategy", "u.WaitStrategy"), ("WaitStrategy", "kube.StatusWatcherStrategy")] ∧
+    Helm.Spec.forwardsAll Helm.Gen.atomicRollbackFields
+      [("Timeout", "u.Timeout"), ("DisableHooks", "u.DisableHooks"), ("Force", "u.Force"),
+       ("WaitForJobs", "u.WaitForJobs")] = true := by
+  decide
+
 end Helm.Props.C03
